@@ -367,28 +367,40 @@ func c20SharedConfig(c *Ctx) {
 			stop := make(chan struct{})
 			var rot sync.WaitGroup
 			rot.Add(1)
+			var handshakesDone int64 // the rotator's clock: it rotates once per 5 completed handshakes, whatever the machine load
 			go func() { // concurrent ticket key rotation
 				defer rot.Done()
 				var keys [][32]byte
+				var last int64 = -5
 				for i := 0; ; i++ {
 					select {
 					case <-stop:
 						return
 					default:
 					}
+					if cur := atomic.LoadInt64(&handshakesDone); cur-last < 5 {
+						runtime.Gosched()
+						time.Sleep(50 * time.Microsecond)
+						i--
+						continue
+					} else {
+						last = cur
+					}
 					var k [32]byte
 					binary.BigEndian.PutUint64(k[:], uint64(i+1))
 					keys = append([][32]byte{k}, keys...)
-					if len(keys) > 3 {
-						keys = keys[:3]
+					if len(keys) > 8 {
+						keys = keys[:8]
 					}
 					scfg.SetSessionTicketKeys(keys)
+					// eight keys x five handshakes per rotation: a ticket outlives about forty handshakes, so later waves resume,
+					// many of them under a key that is no longer the first one (the server then renews the ticket during the
+					// resumption), while rotations keep overlapping handshakes
 					runtime.Gosched()
-					time.Sleep(200 * time.Microsecond)
 				}
 			}()
 			var failed, resumed int32
-			for wave := 0; wave < 2; wave++ { // second wave can resume from the shared cache
+			for wave := 0; wave < 4; wave++ { // later waves resume from the shared cache
 				runConcurrently(N, func(g int) {
 					out := handshakePair(ccfg, scfg, nil)
 					w := map[string]interface{}{"mode": mode, "connections": N, "client_error": errStr(out.cli.err), "server_error": errStr(out.srv.err)}
@@ -410,6 +422,7 @@ func c20SharedConfig(c *Ctx) {
 					if out.cli.state.DidResume != out.srv.state.DidResume || out.cli.state.CipherSuite != out.srv.state.CipherSuite || !sameStrings(out.cli.ekm, out.srv.ekm) {
 						rep.Violation("C20/shared-config/ends-disagree/"+mode, "", w)
 					}
+					atomic.AddInt64(&handshakesDone, 1)
 					if out.srv.state.DidResume {
 						atomic.AddInt32(&resumed, 1)
 					}
@@ -421,7 +434,7 @@ func c20SharedConfig(c *Ctx) {
 			}
 			close(stop)
 			rot.Wait()
-			rep.Count("shared_config_connections/"+mode, int64(2*N))
+			rep.Count("shared_config_connections/"+mode, int64(4*N))
 			rep.Count("shared_config_resumed/"+mode, int64(resumed))
 			rep.Eval(fmt.Sprintf("shared-config/%s/connections=%d", mode, N))
 		}
